@@ -226,16 +226,19 @@ func (m *observerManager) RemoveObserver(o *Observer) {
 	}
 	delete(m.indices, o.id)
 
-	observers := m.observers[o.event]
-	observers[idx].id = maxObserverID
+	oldObservers := m.observers[o.event]
+	oldObservers[idx].id = maxObserverID
 
-	last := uint32(len(observers) - 1)
+	// Copy on write, as an event dispatch may currently be iterating the old slice
+	// when an observer is unregistered from inside an observer callback.
+	last := uint32(len(oldObservers) - 1)
+	observers := make([]*observerData, last, len(oldObservers))
+	copy(observers, oldObservers[:last])
 	if idx != last {
-		observers[idx], observers[last] = observers[last], observers[idx]
+		observers[idx] = oldObservers[last]
 		m.indices[observers[idx].id] = idx
 	}
-	observers[last] = nil
-	m.observers[o.event] = observers[:last]
+	m.observers[o.event] = observers
 	m.hasObservers[o.event] = last > 0
 	m.totalCount--
 
